@@ -1495,3 +1495,61 @@ def digitseen(facts: CppFacts):
                 TU, rd[0].line, "DecodeInteger")
     res.analysed = [TU]
     return res
+
+
+def arraystorage(repo):
+    """R-ARRAYSTORAGE (C07/C03): GenericArrayView is written against its storage type and is instantiated over all of them:
+    ContiguousBuffer for arrays in a `struct`, OffsetBitBlock (over a BitBlock over a byte orderer) for arrays in a
+    `bits`.  What emboss_array_view.h does with the storage fixes what every storage class must offer:
+      * `BufferType::OffsetStorageType<...>(nullptr)` (the element past the end in at() and the iterators) -> the class
+        handed out as OffsetStorageType has a constructor from `::std::nullptr_t`;
+      * `buffer_ == other.buffer_` (array and iterator comparison) -> `operator==` on the storage and on everything it
+        compares in turn (BitBlock, the three byte orderers);
+      * `view_ = array_view_.at(i)` in the iterators -> element views, hence their storage, are copy-assignable: no
+        `const` data member (a defaulted `operator=` is then silently deleted).
+    A missing piece compiles until someone iterates an array inside a `bits`.  The requirements are read from the array
+    view; if it stops using one of the three, the corresponding obligation is dropped."""
+    res = RuleResult("R-ARRAYSTORAGE")
+    MU, AV = "runtime/cpp/emboss_memory_util.h", "runtime/cpp/emboss_array_view.h"
+    av = re.sub(r"//[^\n]*", "", repo.read(AV))
+    mu = re.sub(r"//[^\n]*", "", repo.read(MU))
+    need_null = bool(re.search(r"OffsetStorageType\s*<[^>]*>\s*\(\s*nullptr\s*\)", av))
+    need_eq = bool(re.search(r"buffer_\s*==\s*other\s*\.\s*buffer_", av))
+    need_assign = bool(re.search(r"\bview_\s*=\s*array_view_", av))
+    if not (need_null or need_eq or need_assign):
+        raise AnalysisError("emboss_array_view.h: none of the storage uses (nullptr element, ==, assignment) recognised")
+
+    def block(cls):
+        m = re.search(r"\bclass\s+" + cls + r"\s+final\s*\{", mu)
+        if not m:
+            raise AnalysisError(f"{MU}: class {cls} not found")
+        depth, i = 1, m.end()
+        while i < len(mu) and depth:
+            depth += {"{": 1, "}": -1}.get(mu[i], 0)
+            i += 1
+        return mu[m.end():i - 1], mu[:m.start()].count("\n") + 1
+    storages = ("ContiguousBuffer", "OffsetBitBlock")            # what GetOffsetStorage hands out
+    comparable = ("ContiguousBuffer", "OffsetBitBlock", "BitBlock", "LittleEndianByteOrderer", "BigEndianByteOrderer", "NullByteOrderer")
+    for cls in comparable:
+        body, line = block(cls)
+        if need_null and cls in storages:
+            res.instances += 1
+            if not re.search(r"\b" + cls + r"\s*\(\s*::std::nullptr_t\s*\)", body):
+                res.add(f"{MU}|{cls}|nullptr-constructor", f"GenericArrayView builds the element past the end as `OffsetStorageType<...>(nullptr)`, "
+                        f"but {cls} has no constructor from nullptr_t: `at()`, `begin()`/`end()` do not compile for arrays "
+                        f"{'inside a `bits`' if cls == 'OffsetBitBlock' else 'in a struct'}", MU, line, cls)
+        if need_eq:
+            res.instances += 1
+            if not re.search(r"\boperator\s*==\s*\(", body):
+                res.add(f"{MU}|{cls}|operator==", f"array views and their iterators compare `buffer_ == other.buffer_`; {cls} has no operator==, so "
+                        "iterating (range-based for) over an array inside a `bits` does not compile", MU, line, cls)
+        if need_assign:
+            res.instances += 1
+            cm = re.search(r"^\s*const\s+[\w:<>/\*\s]+?\s+(\w+_)\s*;", body, re.M)
+            if cm:
+                res.add(f"{MU}|{cls}|const-member", f"{cls} has the const data member `{cm.group(1)}`: its (defaulted) copy assignment is deleted, and "
+                        "with it that of every view over it; array iterators assign element views (`view_ = array_view_.at(i)`)",
+                        MU, line, cls)
+    res.samples = [f"array view needs: nullptr element={need_null}, ==={need_eq}, assignment={need_assign}"]
+    res.analysed = [MU, AV]
+    return res
